@@ -53,6 +53,21 @@ _t('compact_T_min', lambda d: _c(d) + 'T%02d%02d' % (d.hour, d.minute), 'm', fam
 _t('compact_nosep_s', lambda d: _c(d) + '%02d%02d%02d' % (d.hour, d.minute, d.second), 's', fam='compact')
 _t('compact_nosep_min', lambda d: _c(d) + '%02d%02d' % (d.hour, d.minute), 'm', fam='compact')
 _t('compact_date', _c, 'd', fam='compact', time=False)
+# the cross product {compact, colon} time x {'.', ','} x 1..6 fraction digits (seed C02F: a comma is a decimal mark after ANY run of
+# >= 2 digits, not only after a two-digit seconds field)
+_hms6 = lambda d: '%02d%02d%02d' % (d.hour, d.minute, d.second)
+_SEPN = {'.': 'dot', ',': 'comma'}
+for _sep in '.,':
+    for _k in (1, 2, 3, 4, 5, 6):
+        _p = 'us' if _k == 6 else ('f', _k)
+        if not (_sep == '.' and _k == 6):       # = compact_T_us
+            _t('compact_T_%s_f%d' % (_SEPN[_sep], _k), (lambda sep, k: lambda d: _c(d) + 'T' + _hms6(d) + sep + _frac(d, k))(_sep, _k), _p, fam='compact')
+        _t('iso_T_ctime_%s_f%d' % (_SEPN[_sep], _k), (lambda sep, k: lambda d: _d(d) + 'T' + _hms6(d) + sep + _frac(d, k))(_sep, _k), _p, fam='compact')
+        if _k in (1, 3, 6):
+            _t('iso_sp_ctime_%s_f%d' % (_SEPN[_sep], _k), (lambda sep, k: lambda d: _d(d) + ' ' + _hms6(d) + sep + _frac(d, k))(_sep, _k), _p, fam='compact')
+for _k in (1, 2, 4, 5):
+    _t('iso_T_comma_f%d' % _k, (lambda k: lambda d: _d(d) + 'T' + _hms(d) + ',' + _frac(d, k))(_k), ('f', _k))
+    _t('iso_sp_dot_f%d' % _k, (lambda k: lambda d: _d(d) + ' ' + _hms(d) + '.' + _frac(d, k))(_k), ('f', _k))
 _t('ctime', lambda d: '%s %s %2d %s %04d' % (WD[d.weekday()], MON[d.month - 1], d.day, _hms(d), d.year), 's',
    sp=True, fam='monthname', ydec=True)
 _t('rfc2822', lambda d: '%s, %02d %s %04d %s' % (WD[d.weekday()], d.day, MON[d.month - 1], d.year, _hms(d)), 's',
@@ -66,6 +81,13 @@ _t('Mon_d_Y_hms', lambda d: '%s %d %04d %s' % (MON[d.month - 1], d.day, d.year, 
 _t('dd-Mon-Y_hm', lambda d: '%02d-%s-%04d %02d:%02d' % (d.day, MON[d.month - 1], d.year, d.hour, d.minute), 'm',
    fam='monthname')
 _t('hms_letters', lambda d: _d(d) + ' %02dh%02dm%02ds' % (d.hour, d.minute, d.second), 's', sp=True, fam='hms')
+# NNhNNmNN.fs with a fraction: 1, 2, 4, 6 digits round-trip; 3 and 5 do NOT (the token 'SS.fff' has 6 characters, 'SS.fffff' has 8:
+# _parse_numeric_token takes it for HHMMSS / YYYYMMDD) — known finding D-C02-hms-fraction-token-length
+for _sep in '.,':
+    for _k in (1, 2, 3, 4, 5, 6):
+        _t('hms_letters_%s_f%d' % (_SEPN[_sep], _k),
+           (lambda sep, k: lambda d: _d(d) + ' %02dh%02dm%02d%s%ss' % (d.hour, d.minute, d.second, sep, _frac(d, k)))(_sep, _k),
+           'us' if _k == 6 else ('f', _k), sp=True, fam='hms')
 _t('hm_letters', lambda d: _d(d) + ' %02dh%02dm' % (d.hour, d.minute), 'm', sp=True, fam='hms')
 _t('us_slash', lambda d: '%02d/%02d/%04d %s' % (d.month, d.day, d.year, _hms(d)), 's', fam='numeric')
 _t('us_dash_date', lambda d: '%02d-%02d-%04d' % (d.month, d.day, d.year), 'd', fam='numeric', time=False)
@@ -148,6 +170,17 @@ DEFAULTS = [datetime.datetime(2003, 9, 25), datetime.datetime(2001, 1, 31), date
             datetime.datetime(1999, 12, 31, 23, 59, 59, 999999), datetime.datetime(1, 1, 1), datetime.datetime(9999, 12, 31),
             datetime.datetime(2024, 3, 30, 12), datetime.datetime(2023, 5, 31, 1, 2, 3, 4), datetime.datetime(2100, 8, 29),
             datetime.datetime(9999, 12, 25, 10)]
+
+# aware `default=` values (the tzinfo objects are module-level so that "is the default's tzinfo" is decidable)
+_TZ5 = datetime.timezone(datetime.timedelta(hours=5))
+_TZM330 = datetime.timezone(datetime.timedelta(hours=-3, minutes=-30), "NST")
+AWARE_DEFAULTS = [datetime.datetime(2003, 9, 25, tzinfo=_TZ5), datetime.datetime(2001, 1, 31, 7, 8, 9, 10, tzinfo=_TZM330),
+                  datetime.datetime(2000, 2, 29, tzinfo=datetime.timezone.utc), datetime.datetime(2024, 3, 31, 1, 30, tzinfo=_TZ5)]
+
+
+def pick_default(rng, p_aware=0.08):
+    return rng.choice(AWARE_DEFAULTS) if rng.random() < p_aware else rng.choice(DEFAULTS)
+
 
 # ----------------------------------------------------------------------------- C14 malformed stream
 WORDS = (MON + MONL + WD + WDL + ['Sept', 'am', 'pm', 'AM', 'PM', 'a', 'p', 'A', 'P', 'h', 'm', 's', 'hour', 'hours', 'minute',
@@ -258,7 +291,15 @@ def tz_specs():
                     S("call", {"BRST": ("i", -7200), "EST": ("s", "EST5EDT")}, ("n",)),
                     S("call", {}, ("e",)), S("call", {"UTC": ("o", 0)}, ("i", 19800)),
                     S("call", {"EST": ("o", 2), "EDT": ("o", 2), "GMT": ("o", 3), "BST": ("o", 3)}, ("e",)),
-                    S("map", {"BRST": ("i", 10 ** 15)})]
+                    S("map", {"BRST": ("i", 10 ** 15)}),
+                    # TZ strings: more valid shapes, and MALFORMED ones (tz.tzstr raises ValueError inside _build_tzaware;
+                    # month 13 passes the constructor and raises at tzname(): D-C14-tzinfos-bad-tzstring)
+                    S("map", {"IST": ("s", "IST-5:30"), "EST": ("s", "AEST-10AEDT,M10.1.0,M4.1.0/3"), "GMT": ("s", "GMT+3"),
+                              "BST": ("s", "GMT0BST,M3.5.0/1,M10.5.0"), "AEDT": ("s", "AEST-10AEDT,M10.1.0,M4.1.0/3")}),
+                    S("map", {"EST": ("s", "5"), "CET": ("s", "EST5EDT,foo"), "BRST": ("s", ""), "UTC": ("s", "EST5EDT,M13.1.0,M11.1.0"),
+                              "EDT": ("s", "EST5EDT,M13.1.0,M11.1.0")}),
+                    S("call", {"GMT": ("s", "EST5EDT,M3.2.0,M14.1.0")}, ("s", "not a tz string")),
+                    S("call", {"EST": ("s", "EST5EDT4,M3.2.0/2,M11.1.0/2")}, ("s", "UTC"))]
     return TZ_SPECS
 
 
@@ -280,7 +321,7 @@ def options(rng, text, allow_custom=True, allow_bad_tz=False):
     fz = rng.random() < 0.35
     fwt = rng.random() < 0.25
     tz = rng.choice(tz_specs())
-    return L.Call(text, default=rng.choice(DEFAULTS), dayfirst=rng.choice([None, None, True, False]),
+    return L.Call(text, default=pick_default(rng), dayfirst=rng.choice([None, None, True, False]),
                   yearfirst=rng.choice([None, None, True, False]), fuzzy=fz, fwt=fwt, ignoretz=rng.random() < 0.15,
                   tz=tz, info=info, info_custom=custom)
 
@@ -323,3 +364,79 @@ TZ_ENVS = ['UTC', 'America/New_York', 'Europe/London', 'Asia/Kolkata', 'Europe/B
 
 FILLER = ['Today is', 'at', 'on', 'the meeting of', 'is', 'approximately', 'foo', 'bar', 'we met', 'and then', 'exactly',
           'see you', 'by', 'around', 'sharp', 'in room', 'x', 'ok']
+
+
+# ----------------------------------------------------------------------------- process-zone switch family (C14 / C15)
+# groups of TZ settings that SHARE entries of time.tzname but differ in offset / DST rules / hemisphere / having DST at all
+ZONE_GROUPS = [
+    ['EST+5EDT,M3.2.0/2,M11.1.0/2', 'EST-10EDT,M10.1.0,M4.1.0/3', 'EST5EDT4,M4.1.0,M10.5.0', 'America/New_York', 'EST5',
+     'Australia/Sydney'],
+    ['AAA0BBB,M3.5.0/1,M10.5.0', 'AAA-3BBB,M3.5.0/1,M10.5.0', 'AAA0BBB-2,M10.1.0,M3.1.0', 'AAA5:30BBB,M3.2.0,M11.1.0', 'AAA-9'],
+    ['GMT0BST,M3.5.0/1,M10.5.0', 'Europe/London', 'GMT-6BST-7,M4.1.0,M9.5.0', 'GMT0', 'GMT-2'],
+    ['UTC', 'UTC+3', 'UTC0', 'UTC-5:45', 'UTC-1UTC-2,M3.5.0,M10.5.0'],
+    ['IST-5:30', 'IST-2IDT,M3.5.5/2,M10.5.0/2', 'Asia/Kolkata', 'IST-1'],
+    ['CET-1CEST,M3.5.0,M10.5.0/3', 'Europe/Berlin', 'CET-1', 'CET+6CEST,M10.1.0,M3.1.0'],
+]
+
+
+def zone_switch_calls(rng, grp, n):
+    """calls whose texts name the abbreviations of the zones in `grp` (and a few others), at ordinary, DST-gap and ambiguous
+    wall times of the rules involved; with and without an explicit offset"""
+    import time
+    names = []
+    for z in grp:
+        L.set_tz(z)
+        for x in time.tzname:
+            if x not in names:
+                names.append(x)
+    other = ['UTC', 'GMT', 'Z', 'XYZ', 'EST', 'BST']
+    out = []
+
+    def when():
+        y = rng.choice([2003, 2003, 1999, 2024, rng.randint(1971, 2036)])
+        if rng.random() < 0.55:
+            # a Sunday (or its neighbours) in a month where one of the rules switches, in the small hours
+            mth = rng.choice([3, 3, 4, 9, 10, 10, 11])
+            d = datetime.date(y, mth, rng.choice([1, 8, 22, calendar.monthrange(y, mth)[1] - 6]))
+            d += datetime.timedelta(days=(6 - d.weekday()) % 7)         # the Sunday on or after
+            if rng.random() < 0.2:
+                d += datetime.timedelta(days=rng.choice([-1, 1]))
+            return datetime.datetime(d.year, d.month, d.day, rng.choice([0, 1, 1, 2, 2, 3]), rng.choice([0, 29, 30, 59]))
+        return datetime.datetime(y, rng.randint(1, 12), rng.randint(1, 28), rng.randint(0, 23), rng.choice([0, 30, 59]))
+
+    fixed = [("2003-07-15 10:00 %s", None), ("2003-01-15 10:00 %s", None), ("10:00 %s", datetime.datetime(2003, 7, 15))]
+    k = 0
+    while len(out) < n:
+        nm = rng.choice(names) if rng.random() < 0.8 else rng.choice(other)
+        if k < len(fixed) * len(names):
+            pat, dflt = fixed[k % len(fixed)]
+            txt = pat % names[k // len(fixed)]
+            c = L.Call(txt, default=dflt or datetime.datetime(2003, 7, 15), tag="zone-switch-seed")
+            k += 1
+            out.append(c)
+            continue
+        t = when()
+        r = rng.random()
+        if r < 0.45:
+            txt = "%04d-%02d-%02d %02d:%02d %s" % (t.year, t.month, t.day, t.hour, t.minute, nm)
+        elif r < 0.6:
+            txt = "%s %d %04d %02d:%02d:00 %s" % (MON[t.month - 1], t.day, t.year, t.hour, t.minute, nm)
+        elif r < 0.7:
+            txt = "%02d:%02d %s" % (t.hour, t.minute, nm)
+        elif r < 0.8:
+            txt = "%04d-%02d-%02dT%02d:%02d:00 %s%s" % (t.year, t.month, t.day, t.hour, t.minute, nm, rng.choice(["+3", "-5", "+10:00", "-0500"]))
+        elif r < 0.88:
+            txt = "%04d-%02d-%02d %02d:%02d %s (%s)" % (t.year, t.month, t.day, t.hour, t.minute, rng.choice(["-0500", "+1000", "+0000"]), nm)
+        elif r < 0.94:
+            txt = "%04d-%02d-%02d %02d:%02d%s" % (t.year, t.month, t.day, t.hour, t.minute, rng.choice(["Z", " +00:00", "+00:00", " -0000"]))
+        else:
+            txt = "%s %04d-%02d-%02d %02d:%02d %s %s" % (rng.choice(FILLER), t.year, t.month, t.day, t.hour, t.minute, nm, rng.choice(FILLER))
+        if rng.random() < 0.3:
+            c = options(rng, txt, allow_custom=False)
+            c.via = "str"
+        else:
+            c = L.Call(txt, default=rng.choice([datetime.datetime(t.year, t.month, t.day), datetime.datetime(2003, 7, 15),
+                                                datetime.datetime(2003, 1, 15)]), fuzzy=(r >= 0.94))
+        c.tag = "zone-switch"
+        out.append(c)
+    return out
